@@ -819,4 +819,28 @@ impl Session {
     fn initial_window_size(mtu: u16) -> u8 {
         min(MAX_MESSAGE_SIZE as u16 / mtu / 2, 255) as _
     }
+
+    /// Read-only projection of the flow-control state for the verification harness:
+    /// `[established, handshake_pending, mtu, window_size, send.level, send.last_sent_seq_num,
+    /// send.sent_at set?, recv.level, recv.ack_level, recv.ack_seq, recv.buf_messages_ct,
+    /// recv.rem_msg_len, recv.buf.len(), recv.received_at set?]`
+    #[cfg(feature = "verif")]
+    pub fn verif_state(&self) -> [u32; 14] {
+        [
+            self.is_established() as u32,
+            self.handshake_pending as u32,
+            self.mtu as u32,
+            self.window_size as u32,
+            self.send_window.level as u32,
+            self.send_window.last_sent_seq_num as u32,
+            (self.send_window.sent_at != Instant::MAX) as u32,
+            self.recv_window.level as u32,
+            self.recv_window.ack_level as u32,
+            self.recv_window.ack_seq as u32,
+            self.recv_window.buf_messages_ct as u32,
+            self.recv_window.rem_msg_len as u32,
+            self.recv_window.buf.len() as u32,
+            (self.recv_window.received_at != Instant::MAX) as u32,
+        ]
+    }
 }
